@@ -31,7 +31,7 @@ func init() {
 }
 
 func runC15(c *core.Ctx) {
-	c.MinInstances("C15-INPUT", 4)
+	c.MinInstances("C15-INPUT", 9)
 	c.MinInstances("C15-TS", 6)
 	c.MinInstances("C15-SLOT", 6)
 	c.Trust("crypto/md5", "fmt %010d prints at least ten digits; time.Format with layout 0102150405 prints exactly ten")
@@ -187,6 +187,35 @@ func runC15(c *core.Ctx) {
 	}
 	isParam := func(fn *ssa.Function, a catom, i int) bool {
 		return a.V != nil && i < len(fn.Params) && strip(a.V) == ssa.Value(fn.Params[i])
+	}
+	// purity: a digest helper only reads its arguments. append(param, ...) writes into the spare capacity behind a
+	// caller's slice (e.g. the status octets sliced out of a received frame), corrupting the very fields that are verified.
+	for _, d := range []struct{ rel, name string }{{"cmpp", "GenConnectAuth"}, {"cmpp", "GenConnectRespAuthISMG"}, {"cmpp/cmpp20", "NewConnect"}, {"smgp/smgp30", "genAuthenticatorClient"}, {"smgp/smgp30", "NewLogin"}} {
+		fn := lookup(d.rel, d.name)
+		if fn == nil {
+			continue
+		}
+		var bad []string
+		for _, b := range fn.Blocks {
+			for _, ins := range b.Instrs {
+				call, ok := ins.(*ssa.Call)
+				if !ok {
+					continue
+				}
+				bi, ok := call.Call.Value.(*ssa.Builtin)
+				if !ok || (bi.Name() != "append" && bi.Name() != "copy") {
+					continue
+				}
+				var roots []ssa.Value
+				rootsOf(call.Call.Args[0], map[ssa.Value]bool{}, &roots)
+				for _, r := range roots {
+					if prm, isP := r.(*ssa.Parameter); isP {
+						bad = append(bad, bi.Name()+" at "+c.Prog.Pos(call.Pos())+" writes into the storage of argument "+prm.Name())
+					}
+				}
+			}
+		}
+		c.Decide(len(bad) == 0, "C15-INPUT", d.rel+"."+d.name+"#pure", c.Prog.Pos(fn.Pos()), "arguments are only read", strings.Join(bad, "; ")+": the caller's buffer (the received frame) is modified while its authenticator is being verified")
 	}
 	// CMPP request authenticator
 	if fn := lookup("cmpp", "GenConnectAuth"); fn == nil {
